@@ -215,3 +215,412 @@ func init() {
 		g.emit(m)
 	})
 }
+
+// ---- actions, instructions, buckets, messages ---------------------------------------------------
+
+// a register / simple field usable as src/dst of Nicira actions
+func (g *apiGen) regField() string {
+	v := g.v()
+	g.add("%s=NewRegMatchField(%d,%d,~)", v, g.c.rng.Intn(16), g.edge(0xffffffff))
+	return v
+}
+
+// one action (depth bounds conntrack nesting); returns the variable
+func (g *apiGen) action(depth int) string {
+	v := g.v()
+	r := g.c.rng
+	u := func(max uint64) string { return fmt.Sprint(g.edge(max)) }
+	k := r.Intn(27)
+	if depth <= 0 && k == 20 {
+		k = 0
+	}
+	switch k {
+	case 0:
+		g.add("%s=NewActionOutput(%s)", v, u(0xffffffff))
+	case 1:
+		g.add("%s=NewActionSetQueue(%s)", v, u(0xffffffff))
+	case 2:
+		g.add("%s=NewActionGroup(%s)", v, u(0xffffffff))
+	case 3:
+		g.add("%s=NewActionDecNwTtl()", v)
+	case 4:
+		g.add("%s=NewActionPushVlan(%s)", v, u(0xffff))
+	case 5:
+		g.add("%s=NewActionPushMpls(%s)", v, u(0xffff))
+	case 6:
+		g.add("%s=NewActionPopVlan()", v)
+	case 7:
+		g.add("%s=NewActionPopMpls(%s)", v, u(0xffff))
+	case 8:
+		f := g.field()
+		g.add("%s=NewActionSetField(*$%s)", v, f)
+	case 9:
+		g.add("%s=NewNXActionConjunction(%s,%s,%s)", v, u(0xff), u(0xff), u(0xffffffff))
+	case 10:
+		f := g.regField()
+		s := r.Intn(32)
+		n := 1 + r.Intn(32-s)
+		g.add("%s=NewNXActionRegLoad(%d,$%s,%d)", v, s<<6|(n-1), f, g.edge((1<<uint(n))-1))
+	case 11:
+		a, b := g.regField(), g.regField()
+		g.add("%s=NewNXActionRegMove(%d,%d,%d,$%s,$%s)", v, 1+r.Intn(32), r.Intn(16), r.Intn(16), a, b)
+	case 12:
+		g.add("%s=NewNXActionResubmit(%s)", v, u(0xffff))
+	case 13:
+		g.add("%s=NewNXActionResubmitTableAction(%s,%s)", v, u(0xffff), u(0xff))
+	case 14:
+		g.add("%s=NewNXActionResubmitTableCT(%s,%s)", v, u(0xffff), u(0xff))
+	case 15:
+		g.add("%s=NewNXActionResubmitTableCTNoInPort(%s)", v, u(0xff))
+	case 16:
+		// NAT: each range setter at most once, any subset
+		g.add("%s=NewNXActionCTNAT()", v)
+		if r.Intn(2) == 0 {
+			g.add("$%s.SetSNAT()", v)
+		} else {
+			g.add("$%s.SetDNAT()", v)
+		}
+		if r.Intn(3) == 0 {
+			g.add("$%s.SetPersistent()", v)
+		}
+		switch r.Intn(3) {
+		case 0:
+			g.add("$%s.SetProtoHash()", v)
+		case 1:
+			g.add("$%s.SetRandom()", v)
+		}
+		if r.Intn(2) == 0 {
+			if r.Intn(2) == 0 {
+				g.add("$%s.SetRangeIPv4Min(%s)", v, g.bytes(4))
+			}
+			if r.Intn(2) == 0 {
+				g.add("$%s.SetRangeIPv4Max(%s)", v, g.bytes(4))
+			}
+		} else {
+			if r.Intn(2) == 0 {
+				g.add("$%s.SetRangeIPv6Min(%s)", v, g.bytes(16))
+			}
+			if r.Intn(2) == 0 {
+				g.add("$%s.SetRangeIPv6Max(%s)", v, g.bytes(16))
+			}
+		}
+		if r.Intn(2) == 0 {
+			g.add("$%s.SetRangeProtoMin(%s)", v, u(0xffff))
+		}
+		if r.Intn(2) == 0 {
+			g.add("$%s.SetRangeProtoMax(%s)", v, u(0xffff))
+		}
+	case 17:
+		f := g.regField()
+		g.add("%s=NewOutputFromField($%s,%d)", v, f, r.Intn(32)<<6|31)
+	case 18:
+		f := g.regField()
+		g.add("%s=NewOutputFromFieldWithMaxLen($%s,%d,%s)", v, f, 31, u(0xffff))
+	case 19:
+		g.add("%s=NewNXActionCTClear()", v)
+	case 20:
+		// conntrack with nested actions
+		g.add("%s=NewNXActionConnTrack()", v)
+		if r.Intn(2) == 0 {
+			g.add("$%s.Commit()", v)
+		}
+		if r.Intn(3) == 0 {
+			g.add("$%s.Force()", v)
+		}
+		if r.Intn(2) == 0 {
+			g.add("$%s.Table(%s)", v, u(0xff))
+		}
+		if r.Intn(2) == 0 {
+			g.add("$%s.ZoneImm(%s)", v, u(0xffff))
+		} else {
+			f := g.regField()
+			rg := g.v()
+			g.add("%s=NewNXRange(0,15)", rg)
+			g.add("$%s.ZoneRange($%s,$%s)", v, f, rg)
+		}
+		for n := r.Intn(4); n > 0; n-- {
+			a := g.action(depth - 1)
+			g.add("$%s.AddAction($%s)", v, a)
+		}
+	case 21:
+		g.add("%s=NewNXActionDecTTL()", v)
+	case 22:
+		n := r.Intn(6)
+		ids := ""
+		for i := 0; i < n; i++ {
+			ids += "," + u(0xffff)
+		}
+		g.add("%s=NewNXActionDecTTLCntIDs(%d%s)", v, n, ids)
+	case 23:
+		g.add("%s=NewNXActionNote()", v)
+		g.add("$%s.Note=%s", v, g.bytes(6+8*r.Intn(4)))
+	case 24:
+		f := g.field()
+		g.add("%s=NewNXActionRegLoad2($%s)", v, f)
+	case 25:
+		g.add("%s=NewNXActionController(%s)", v, u(0xffff))
+		g.add("$%s.MaxLen=%s", v, u(0xffff))
+		g.add("$%s.Reason=%s", v, u(0xff))
+	default:
+		// learn action with flow-mod specs (documented literal: there is no adder for specs)
+		g.add("%s=%s", v, g.learnTerm())
+	}
+	return v
+}
+
+// VendorHeader.Header is a named field: replace the header (type 4, xid drawn from the process-wide counter)
+func (g *apiGen) vendorXid(v string) {
+	h := g.v()
+	g.add("%s=Header(4,4,8,%d)", h, g.edge(0xffffffff))
+	g.add("$%s.Header=*$%s", v, h)
+}
+
+func (g *apiGen) fieldHdrTerm() string {
+	return fmt.Sprintf("MatchField(1,%d,0,4,0,~,~)", g.c.rng.Intn(16))
+}
+
+// NXActionLearn as the tests build it: NewNXActionLearn()'s header plus fields and specs
+func (g *apiGen) learnTerm() string {
+	r := g.c.rng
+	var specs []string
+	for n := r.Intn(4); n > 0; n-- {
+		nbits := 1 + r.Intn(32)
+		switch r.Intn(5) {
+		case 0: // match from value
+			specs = append(specs, fmt.Sprintf("NXLearnSpec(NXLearnSpecHeader(1,0,0,%d,2),~,NXLearnSpecField(%s,%d),%s)", nbits, g.fieldHdrTerm(), r.Intn(16), g.bytes(2*((nbits+15)/16))))
+		case 1: // match from field
+			specs = append(specs, fmt.Sprintf("NXLearnSpec(NXLearnSpecHeader(0,0,0,%d,2),NXLearnSpecField(%s,%d),NXLearnSpecField(%s,%d),x)", nbits, g.fieldHdrTerm(), r.Intn(16), g.fieldHdrTerm(), r.Intn(16)))
+		case 2: // load from value
+			specs = append(specs, fmt.Sprintf("NXLearnSpec(NXLearnSpecHeader(1,1,0,%d,2),~,NXLearnSpecField(%s,%d),%s)", nbits, g.fieldHdrTerm(), r.Intn(16), g.bytes(2*((nbits+15)/16))))
+		case 3: // load from field
+			specs = append(specs, fmt.Sprintf("NXLearnSpec(NXLearnSpecHeader(0,1,0,%d,2),NXLearnSpecField(%s,%d),NXLearnSpecField(%s,%d),x)", nbits, g.fieldHdrTerm(), r.Intn(16), g.fieldHdrTerm(), r.Intn(16)))
+		default: // output from field
+			specs = append(specs, fmt.Sprintf("NXLearnSpec(NXLearnSpecHeader(0,0,1,%d,2),NXLearnSpecField(%s,%d),~,x)", nbits, g.fieldHdrTerm(), r.Intn(16)))
+		}
+	}
+	return fmt.Sprintf("NXActionLearn(NXActionHeader(ActionHeader(65535,10),8992,16),%d,%d,%d,%d,%d,%d,0,%d,%d,[%s],x)",
+		g.edge(0xffff), g.edge(0xffff), g.edge(0xffff), g.edge(^uint64(0)), g.edge(7), g.edge(0xff), g.edge(0xffff), g.edge(0xffff), strings.Join(specs, ","))
+}
+
+func (g *apiGen) instr() string {
+	v := g.v()
+	r := g.c.rng
+	switch r.Intn(4) {
+	case 0:
+		g.add("%s=NewInstrGotoTable(%d)", v, g.edge(0xff))
+	case 1:
+		g.add("%s=NewInstrWriteMetadata(%d,%d)", v, g.edge(^uint64(0)), g.edge(^uint64(0)))
+	default:
+		if r.Intn(2) == 0 {
+			g.add("%s=NewInstrApplyActions()", v)
+		} else {
+			g.add("%s=NewInstrWriteActions()", v)
+		}
+		for n := []int{0, 1, 2, 3, 7}[r.Intn(5)]; n > 0; n-- {
+			a := g.action(2)
+			g.add("$%s.AddAction($%s,%d)", v, a, r.Intn(2))
+		}
+	}
+	return v
+}
+
+func (g *apiGen) bucket() string {
+	v := g.v()
+	g.add("%s=NewBucket()", v)
+	g.add("$%s.Weight=%d", v, g.edge(0xffff))
+	g.add("$%s.WatchPort=%d", v, g.edge(0xffffffff))
+	g.add("$%s.WatchGroup=%d", v, g.edge(0xffffffff))
+	for n := []int{0, 1, 2, 3}[g.c.rng.Intn(4)]; n > 0; n-- {
+		a := g.action(1)
+		g.add("$%s.AddAction($%s)", v, a)
+	}
+	return v
+}
+
+func (g *apiGen) flowMod(cmd int) string {
+	v := g.v()
+	r := g.c.rng
+	g.add("%s=NewFlowMod()", v)
+	g.add("$%s.Xid=%d", v, g.edge(0xffffffff))
+	g.add("$%s.Command=%d", v, cmd)
+	g.add("$%s.Cookie=%d", v, g.edge(^uint64(0)))
+	g.add("$%s.CookieMask=%d", v, g.edge(^uint64(0)))
+	g.add("$%s.TableId=%d", v, g.edge(0xff))
+	g.add("$%s.IdleTimeout=%d", v, g.edge(0xffff))
+	g.add("$%s.HardTimeout=%d", v, g.edge(0xffff))
+	g.add("$%s.Priority=%d", v, g.edge(0xffff))
+	g.add("$%s.BufferId=%d", v, g.edge(0xffffffff))
+	g.add("$%s.OutPort=%d", v, g.edge(0xffffffff))
+	g.add("$%s.OutGroup=%d", v, g.edge(0xffffffff))
+	g.add("$%s.Flags=%d", v, g.edge(0x1f))
+	m := g.match([]int{0, 1, 2, 3, 7}[r.Intn(5)])
+	g.add("$%s.Match=*$%s", v, m)
+	for n := []int{0, 1, 2, 3}[r.Intn(4)]; n > 0; n-- {
+		i := g.instr()
+		g.add("$%s.AddInstruction($%s)", v, i)
+	}
+	return v
+}
+
+func (g *apiGen) groupMod(cmd int) string {
+	v := g.v()
+	g.add("%s=NewGroupMod()", v)
+	g.add("$%s.Xid=%d", v, g.edge(0xffffffff))
+	g.add("$%s.Command=%d", v, cmd)
+	g.add("$%s.Type=%d", v, g.c.rng.Intn(4))
+	g.add("$%s.GroupId=%d", v, g.edge(0xffffffff))
+	for n := []int{0, 1, 2, 3}[g.c.rng.Intn(4)]; n > 0; n-- {
+		b := g.bucket()
+		g.add("$%s.AddBucket(*$%s)", v, b)
+	}
+	return v
+}
+
+func (g *apiGen) packetOut() string {
+	v := g.v()
+	g.add("%s=NewPacketOut()", v)
+	g.add("$%s.Xid=%d", v, g.edge(0xffffffff))
+	g.add("$%s.BufferId=%d", v, g.edge(0xffffffff))
+	g.add("$%s.InPort=%d", v, g.edge(0xffffffff))
+	for n := []int{0, 1, 2, 3, 7}[g.c.rng.Intn(5)]; n > 0; n-- {
+		a := g.action(2)
+		g.add("$%s.AddAction($%s)", v, a)
+	}
+	g.add("$%s.SetData(%s)", v, g.bytes(g.c.rng.Intn(80)))
+	return v
+}
+
+// any controller-originated message except bundle-add; returns the variable
+func (g *apiGen) message() string {
+	r := g.c.rng
+	v := g.v()
+	switch r.Intn(14) {
+	case 0:
+		g.add("%s=NewHello(4)", v)
+		g.add("$%s.Xid=%d", v, g.edge(0xffffffff))
+	case 1:
+		g.add("%s=NewEchoRequest()", v)
+		g.add("$%s.Xid=%d", v, g.edge(0xffffffff))
+	case 2:
+		g.add("%s=NewEchoReply()", v)
+		g.add("$%s.Xid=%d", v, g.edge(0xffffffff))
+	case 3:
+		g.add("%s=NewFeaturesRequest()", v)
+		g.add("$%s.Xid=%d", v, g.edge(0xffffffff))
+	case 4:
+		g.add("%s=NewConfigRequest()", v)
+		g.add("$%s.Xid=%d", v, g.edge(0xffffffff))
+	case 5:
+		g.add("%s=NewSetConfig()", v)
+		g.add("$%s.Xid=%d", v, g.edge(0xffffffff))
+		g.add("$%s.Flags=%d", v, g.edge(3))
+		g.add("$%s.MissSendLen=%d", v, g.edge(0xffff))
+	case 6:
+		return g.flowMod(r.Intn(5))
+	case 7:
+		return g.groupMod(r.Intn(3))
+	case 8:
+		return g.packetOut()
+	case 9:
+		g.add("%s=NewPortMod(%d)", v, g.edge(0xffff))
+		g.add("$%s.Xid=%d", v, g.edge(0xffffffff))
+		g.add("$%s.HWAddr=%s", v, g.bytes(6))
+		g.add("$%s.Config=%d", v, g.edge(0xffffffff))
+		g.add("$%s.Mask=%d", v, g.edge(0xffffffff))
+		g.add("$%s.Advertise=%d", v, g.edge(0xffffffff))
+	case 10:
+		// multipart request (documented literal: no constructor) with a constructor-built body
+		b := g.v()
+		ty := 0
+		switch r.Intn(5) {
+		case 0:
+			ty = 1
+			g.add("%s=NewFlowStatsRequest()", b)
+		case 1:
+			ty = 2
+			g.add("%s=NewAggregateStatsRequest()", b)
+		case 2:
+			ty = 4
+			g.add("%s=NewPortStatsRequest()", b)
+			g.add("$%s.PortNo=%d", b, g.edge(0xffff))
+		case 3:
+			ty = 5
+			g.add("%s=NewQueueStatsRequest()", b)
+			g.add("$%s.PortNo=%d", b, g.edge(0xffff))
+			g.add("$%s.QueueId=%d", b, g.edge(0xffffffff))
+		default:
+			ty = []int{0, 3}[r.Intn(2)]
+			b = ""
+		}
+		if ty == 1 || ty == 2 {
+			g.add("$%s.TableId=%d", b, g.edge(0xff))
+			g.add("$%s.OutPort=%d", b, g.edge(0xffffffff))
+			g.add("$%s.OutGroup=%d", b, g.edge(0xffffffff))
+			g.add("$%s.Cookie=%d", b, g.edge(^uint64(0)))
+			g.add("$%s.CookieMask=%d", b, g.edge(^uint64(0)))
+			m := g.match(r.Intn(4))
+			g.add("$%s.Match=*$%s", b, m)
+		}
+		g.add("%s=MultipartRequest(Header(4,18,16,%d),%d,0,x00000000,~)", v, g.edge(0xffffffff), ty)
+		if b != "" {
+			g.add("$%s.Body=$%s", v, b)
+		}
+	case 11:
+		g.add("%s=NewSetControllerID(%d)", v, g.edge(0xffff))
+		g.vendorXid(v)
+	case 12:
+		var maps []string
+		for n := r.Intn(4); n > 0; n-- {
+			maps = append(maps, fmt.Sprintf("TLVTableMap(%d,%d,%d,%d,x0000)", g.edge(0xffff), g.edge(0xff), 4*(1+r.Intn(31)), g.edge(63)))
+		}
+		t := g.v()
+		g.add("%s=NewTLVTableMod(%d,[%s])", t, r.Intn(3), strings.Join(maps, ","))
+		g.add("%s=NewTLVTableModMessage($%s)", v, t)
+		g.vendorXid(v)
+	default:
+		if r.Intn(2) == 0 {
+			g.add("%s=NewTLVTableRequest()", v)
+			g.vendorXid(v)
+		} else {
+			c := g.v()
+			g.add("%s=BundleControl(%d,%d,%d)", c, g.edge(0xffffffff), r.Intn(8), r.Intn(4))
+			g.add("%s=NewBundleControl($%s)", v, c)
+			g.vendorXid(v)
+		}
+	}
+	return v
+}
+
+func init() {
+	apiGens = append(apiGens, func(g *apiGen) {
+		// single elements
+		a := g.action(3)
+		g.emit(a)
+		i := g.instr()
+		g.emit(i)
+		b := g.bucket()
+		g.emit(b)
+		// every flow-mod and group-mod command
+		for cmd := 0; cmd < 5; cmd++ {
+			f := g.flowMod(cmd)
+			g.emit(f)
+		}
+		for cmd := 0; cmd < 3; cmd++ {
+			gm := g.groupMod(cmd)
+			g.emit(gm)
+		}
+		for k := 0; k < 6; k++ {
+			m := g.message()
+			g.emit(m)
+		}
+		// bundle-add wrapping any other message
+		m := g.message()
+		ba := g.v()
+		g.add("%s=BundleAdd(%d,x0000,%d,~,[])", ba, g.edge(0xffffffff), g.c.rng.Intn(4))
+		g.add("$%s.Message=$%s", ba, m)
+		v := g.v()
+		g.add("%s=NewBundleAdd($%s)", v, ba)
+		g.vendorXid(v)
+		g.emit(v)
+	})
+}
